@@ -25,7 +25,8 @@ RULE = ('attack corpus generated from templates (external general/parameter enti
         'subsets, XInclude, internal entities, entity-expansion chains fan-out 2..10 x depth 2..9, quadratic blow-up, deep '
         'nesting, huge attribute counts) placed at every text and attribute position of valid requests for XmlDocument, '
         'Soap11, Soap12 (default-constructed protocols) through ServerBase and WSGI, each also delivered under four other framings (XML declaration with an encoding, with and without a transport charset; ISO-8859-1; UTF-16 with BOM); non-trivial = the child processed the '
-        'document under strace and its syscall segment was found; distinct by (protocol, driver, template, position, outcome).')
+        'document under strace and its syscall segment was found; distinct by (protocol, driver, template, position, outcome).'
+        ' Also: six delivery framings incl. multipart/related, bystander protocol instances with relaxed options in the same process, references between literal text and in declared attributes.')
 ASSUMPTIONS = [
     'the child process also holds protocol instances (and a second application) constructed with every relaxed parser option; they are never attached to the target',
     'libxml2 in this sandbox is built without an HTTP/FTP client: a network fetch cannot happen even with unsafe options; the file/DTD canaries are the effective detectors, connect() is watched regardless',
